@@ -169,6 +169,23 @@ class DigitFiller(Filler):
         return mn(s)
 
 
+class SpecialFiller(Filler):
+    """'num' filler in which the k-th numeric slot gets the given literal instead (a decimal that is numerically a small integer, a
+    half, ...): rules that compare an operand with a number see it as that number"""
+
+    def __init__(self, k, lit, mark="."):
+        Filler.__init__(self, "num", mark)
+        self.k, self.lit = k, lit
+
+    def atom(self, kind):
+        if kind != "id" and self.n == self.k:
+            s = self.lit.replace(".", self.mark)
+            self.n += 1
+            self.planted.append(s)
+            return mn(s)
+        return Filler.atom(self, kind)
+
+
 def spine_shapes(depth, names=None):
     """All spine shapes of nesting depth <= depth: a shape is None (an atom) or (construct name,
     slot index holding the sub-shape or None, sub-shape)."""
